@@ -3,6 +3,7 @@ package gen
 import (
 	"fmt"
 	"math/rand/v2"
+	"strings"
 
 	"google.golang.org/protobuf/proto"
 	"google.golang.org/protobuf/reflect/protodesc"
@@ -121,7 +122,57 @@ func randSchemaOnce(rs, seed uint64, tag string) *descriptorpb.FileDescriptorPro
 	if g.goFeat {
 		g.fd.Dependency = append(g.fd.Dependency, "google/protobuf/go_features.proto")
 	}
+	g.services(used)
 	return g.fd
+}
+
+var serviceNamePool = []string{"Svc", "Service", "API", "Greeter_1"}
+var methodNamePool = []string{"Call", "Get", "Stream", "reset", "String", "do_it", "M"}
+
+// services are drawn last, so that the rest of the schema is the same function of the seed as it was before services
+// were added: 0..2 services of 1..3 methods over the messages of the file (nested ones too) and google.protobuf.Empty,
+// with every combination of the streaming flags.
+func (g *schemaGen) services(used map[string]bool) {
+	if g.r.IntN(3) != 0 {
+		return
+	}
+	var cands []string
+	for _, m := range g.msgs {
+		if !strings.Contains(m, ".Grp") {
+			cands = append(cands, m)
+		}
+	}
+	if len(cands) == 0 {
+		return
+	}
+	useEmpty := false
+	pickT := func() string {
+		if g.r.IntN(5) == 0 {
+			useEmpty = true
+			return ".google.protobuf.Empty"
+		}
+		return cands[g.r.IntN(len(cands))]
+	}
+	for i, n := 0, 1+g.r.IntN(2); i < n; i++ {
+		sd := &descriptorpb.ServiceDescriptorProto{Name: proto.String(g.pick(serviceNamePool, used))}
+		mused := map[string]bool{}
+		for j, nm := 0, 1+g.r.IntN(3); j < nm; j++ {
+			md := &descriptorpb.MethodDescriptorProto{Name: proto.String(g.pick(methodNamePool, mused)), InputType: proto.String(pickT()), OutputType: proto.String(pickT())}
+			switch g.r.IntN(4) {
+			case 1:
+				md.ClientStreaming = proto.Bool(true)
+			case 2:
+				md.ServerStreaming = proto.Bool(true)
+			case 3:
+				md.ClientStreaming, md.ServerStreaming = proto.Bool(true), proto.Bool(true)
+			}
+			sd.Method = append(sd.Method, md)
+		}
+		g.fd.Service = append(g.fd.Service, sd)
+	}
+	if useEmpty {
+		g.fd.Dependency = append(g.fd.Dependency, "google/protobuf/empty.proto")
+	}
 }
 
 func (g *schemaGen) features(file bool) *descriptorpb.FeatureSet {
